@@ -7,6 +7,7 @@ from ..consteval import UNKNOWN, fold_in
 from ..dataflow import must_facts
 from ..locks import regions
 from ..mutate import B, M
+from ..flow import only_none_guards
 from ..symexec import paths_of, subst
 
 PROP = 'C06'
@@ -251,7 +252,7 @@ def check(ctx):
         if okl:
             body = g.loop_body_nodes(loops[0])
             calls = [n for n in body for c in walk_own(n.ast) if n.kind == 'stmt' and isinstance(c, ast.Call) and norm(c.func) == cb]
-            okl = len(calls) == 1 and g.fact_keys_at(calls[0]) == g.fact_keys_at(loops[0])
+            okl = len(calls) == 1 and only_none_guards(g.fact_keys_at(calls[0]) - g.fact_keys_at(loops[0]), norm(loops[0].ast.target))
             # the loop runs over a local snapshot that is complete before the table is emptied
             it = loops[0].ast.iter
             okl = okl and isinstance(it, ast.Name) and g.dominates(cnode, loops[0])
